@@ -229,3 +229,751 @@ def translate(ctx):
     ctx.notes.setdefault("generated", {})["Gen/C08Geom.lean"] = {
         "hooks": [i["fn"] for (i, _) in T["hooks"]], "helpers": sorted(T["helpers"]), "from_groove": sorted(T["fg"]),
         "rewritten": changed}
+
+
+# --------------------------------------------------------------------------------------------------------------
+# generators
+# --------------------------------------------------------------------------------------------------------------
+RULE = ("every groove class (20 parametric classes from a catalogue of feasible parameter sets, lengths scaled log-uniformly, one "
+        "parameter jittered; SplineGroove with random symmetric polylines for two rolls) x pad angle matching the roll count "
+        "(0 deg two rolls, 30 deg three) x gap log-uniform 1e-3..0.5 of the groove width (two rolls: also exactly 0) x incoming "
+        "profile (round / box / diamond / square, taller than the pass) x prescribed width of the out profile given by a width "
+        "hook on a throw-away pass subclass: default (no width model), under-filled, exactly the usable width, into the face "
+        "padding, exactly the contour extent, within 1 % over (incl. just below 1.01), just above 1.01, well beyond; plus a "
+        "malformed stream (0, negative, nan, inf). Every case is a REAL `solve` of the pass. non-trivial = a width is prescribed "
+        "or gap > 0; distinct by (class, rounded parameters, gap, width/capacity, in-profile kind).")
+ASSUMPTIONS = [
+    "shapely/GEOS: Polygon / clip_by_rect / segmentize / is_valid are parameters of the term language (the term-level theorem "
+    "holds for every interpretation); the vertex-list interpretation (half-plane clips walking along the ring) is validated "
+    "against GEOS on every case whose intermediate results are single polygons and is exact only when the clipped region is "
+    "connected (z-monotone contours); containment is a theorem for the vertices / edges of the clipped z-monotone chain only",
+    "GEOS validity (`is_valid`) is an uninterpreted predicate of the model; its value is observed, not derived",
+    "roll.contour_line and groove.contour_line have the same coordinates (C10 territory; checked on every case)",
+    "IEEE rounding: theorems are over the reals; geometric comparisons use 1e-9 of the opening's size",
+    "three rolls with gap exactly 0 are not generated: the usable cross-section raises there (known finding of C09)",
+]
+
+CATALOGUE = {
+    "BoxGroove": dict(depth=52, r1=15, r2=18, usable_width=185.29, ground_width=157.62),
+    "CircularOvalGroove": dict(depth=5.05, r1=7, r2=33),
+    "ConstrictedBoxGroove": dict(depth=52, r1=15, r2=18, r4=10, usable_width=185.29, ground_width=157.62, indent=10),
+    "ConstrictedCircularOvalGroove": dict(depth=17, r1=3, r2=30, r3=5, r4=20, indent=3, usable_width=56.70672071),
+    "ConstrictedSwedishOvalGroove": dict(depth=18, r1=5, r2=10, r4=5, usable_width=78, ground_width=60, indent=3),
+    "ConstrictedUpsetBoxGroove": dict(depth=30, r1=5, r2=3, usable_width=20, ground_width=9.42038116, indent=0.5, r4=1),
+    "DiamondGroove": dict(r1=5, r2=8, usable_width=40, tip_depth=11.54700538),
+    "EquivalentRibbedGroove": dict(r1=0.2, r3=3.45, rib_distance=8.4, rib_width=1.6, rib_angle=45, base_body_height=11.78,
+                                   nominal_outer_diameter=14, usable_width=13.6788, depth=5.5091),
+    "FalseRoundGroove": dict(depth=31.8646, r1=5, r2=38, flank_angle=65),
+    "FlatGroove": dict(usable_width=100, r1=20),
+    "FlatOvalGroove": dict(depth=20, r1=5, r2=20, usable_width=60),
+    "GothicGroove": dict(depth=20, r1=3, r2=40, r3=2, usable_width=40),
+    "HexagonalGroove": dict(depth=7.66025404, r1=3, r2=1, usable_width=18.84529946, ground_width=10),
+    "Oval3RadiiFlankedGroove": dict(depth=41.1, r1=6, r2=23.5, r3=183, usable_width=74.2506498 * 2, flank_angle=90 - 16.697244),
+    "Oval3RadiiGroove": dict(depth=28.5, r1=10, r2=30, r3=170, usable_width=62.30907983 * 2),
+    "RoundGroove": dict(depth=15.55, r1=2, r2=15.8),
+    "SquareGroove": dict(r1=5, r2=3, usable_width=30, tip_depth=14.74045895),
+    "SwedishOvalGroove": dict(depth=20, r1=8, r2=10, usable_width=100, ground_width=40),
+    "UpsetBoxGroove": dict(depth=30, r1=5, r2=3, usable_width=20, ground_width=9.42038116),
+    "UpsetOvalGroove": dict(depth=23.3303, r1=3, r2=30, r3=5, usable_width=26.2495),
+}
+ANGLES = {"flank_angle", "tip_angle", "rib_angle", "pad_angle"}
+JITTER = {"depth", "r2", "usable_width", "tip_depth", "r1"}
+PAD = {"two": 0, "three": 30}
+TURN = {"two": 180, "three": 120}
+WIDTH_KINDS = ["default", "under", "usable", "pad", "extent", "over-lt-1pc", "over-just-below", "over-just-above", "beyond"]
+
+# past failures first (see notes/C08.md): (which, class, kwargs, gap / usable width, width kind)
+CORPUS = [
+    ("two", "CircularOvalGroove", dict(depth=5.05, r1=7, r2=33), 0.0, "pad"),          # closed gap, over-filled: finding 1
+    ("two", "CircularOvalGroove", dict(depth=5.05, r1=7, r2=33), 0.0, "over-lt-1pc"),
+    ("two", "FlatGroove", dict(usable_width=100, r1=20), 0.02, "pad"),
+    ("two", "CircularOvalGroove", dict(depth=5.05, r1=7, r2=33), 0.0567, "over-just-above"),
+    ("three", "RoundGroove", dict(depth=15.55, r1=2, r2=15.8), 0.02, "over-just-above"),
+    ("three", "UpsetBoxGroove", dict(depth=30, r1=5, r2=3, usable_width=20, ground_width=9.42038116), 0.05, "pad"),
+    ("two", "ConstrictedBoxGroove", dict(depth=52, r1=15, r2=18, r4=10, usable_width=185.29, ground_width=157.62, indent=10), 0.01, "under"),
+]
+
+
+def _build_groove(desc):
+    import pyroll.core as pc
+    if desc["cls"] == "SplineGroove":
+        return pc.SplineGroove(desc["points"], classifiers=("spline",))
+    return getattr(pc, desc["cls"])(**desc["kwargs"])
+
+
+def _random_groove(rng, which, ctx):
+    """-> (desc, groove) ; desc is JSON-able and sufficient to rebuild the groove"""
+    import warnings
+    s = 10 ** rng.uniform(-3, 0)
+    if which == "two" and rng.random() < 0.1:
+        # arbitrary mirror-symmetric polyline with horizontal faces (z-monotone, y not monotone)
+        n = rng.randrange(2, 9)
+        w, d = s * rng.uniform(10, 80), s * rng.uniform(2, 40)
+        xs = sorted(rng.uniform(0, w / 2) for _ in range(n))
+        ys = [d * rng.uniform(0.05, 1) for _ in range(n)]
+        ys[0] = d if rng.random() < 0.7 else ys[0]
+        half = [(x, y) for x, y in zip(xs, ys) if 0 < x < w / 2 * 0.999]
+        pad = w * rng.uniform(0.05, 0.4)
+        pts = [(-w / 2 - pad, 0.0), (-w / 2, 0.0)] + [(-x, y) for x, y in reversed(half)] + [(0.0, ys[0])] + half + \
+              [(w / 2, 0.0), (w / 2 + pad, 0.0)]
+        desc = {"cls": "SplineGroove", "points": [list(p) for p in pts]}
+    else:
+        cls = rng.choice(sorted(CATALOGUE))
+        kw = dict(CATALOGUE[cls])
+        if rng.random() < 0.6:
+            k = rng.choice(sorted(set(kw) & JITTER))
+            kw[k] = kw[k] * rng.uniform(0.97, 1.03)
+        if cls == "FlatGroove" and rng.random() < 0.5:
+            kw["r1"] = 0 if rng.random() < 0.5 else kw["r1"] * rng.uniform(0.1, 1)
+        kw = {k: (v if k in ANGLES else v * s) for k, v in kw.items()}
+        kw["pad_angle"] = PAD[which]
+        desc = {"cls": cls, "kwargs": kw}
+    try:
+        with warnings.catch_warnings():
+            warnings.simplefilter("ignore")
+            return desc, _build_groove(desc)
+    except Exception as ex:          # an infeasible parameter set: not a case
+        ctx.count("groove-rejected:" + type(ex).__name__)
+        return None
+
+
+_PASS_CLASSES = {}
+
+
+def _pass_class(which):
+    """a throw-away subclass of the real pass class whose out profile has one more `width` implementation: the prescribed
+    width stored on the pass (None = no width model: the default answers).  Nothing is registered on pyroll's own classes."""
+    if which not in _PASS_CLASSES:
+        import pyroll.core as pc
+        base = pc.TwoRollPass if which == "two" else pc.ThreeRollPass
+        out = type("OutProfile", (base.OutProfile,), {})
+        cls = type("C08" + base.__name__, (base,), {"OutProfile": out})
+
+        def prescribed_width(self):
+            return getattr(self.roll_pass, "c08_width", None)
+        cls.OutProfile.width(prescribed_width)
+        _PASS_CLASSES[which] = cls
+    return _PASS_CLASSES[which]
+
+
+def _make_pass(which, groove, gap, width):
+    import pyroll.core as pc
+    uw = float(groove.usable_width)
+    extra = {}
+    if which == "three":
+        # the three-roll contact area goes through the contact-line machinery, which fails for under-filled passes
+        # (EmptyPartError); it is no part of this property, so the value is supplied
+        extra["contact_area"] = uw * uw
+    rp = _pass_class(which)(roll=pc.Roll(groove=groove, nominal_radius=10 * uw, rotational_frequency=1.0, neutral_point=0.0, **extra),
+                            gap=gap, velocity=1.0)
+    if width is not None:
+        rp.c08_width = width
+    return rp
+
+
+def _in_profile(kind, h, uw):
+    """an incoming profile that is taller than `h` in every orientation the pass's automatic rotator may turn it to"""
+    import pyroll.core as pc
+    base = dict(temperature=1200 + 273.15, strain=0, material=["C45", "steel"], flow_stress=100e6, length=1.0)
+    if kind == "round":
+        return pc.Profile.round(diameter=h, **base)
+    if kind == "box":
+        return pc.Profile.box(height=h, width=1.1 * h, corner_radius=0.05 * h, **base)
+    if kind == "diamond":
+        return pc.Profile.diamond(height=h, width=1.2 * h, corner_radius=0.05 * h, **base)
+    return pc.Profile.square(side=h, corner_radius=0.02 * h, **base)
+
+
+class _ImplRaised(Exception):
+    pass
+
+
+def _in_pyroll(ex):
+    import traceback
+    return any("/pyroll/" in f.filename for f in traceback.extract_tb(ex.__traceback__))
+
+
+def _solve(rp, in_profile):
+    """('ok', out profile) | ('raised', exception name, message) for exceptions raised from inside pyroll/shapely below
+    pyroll; exceptions of the harness itself propagate"""
+    import traceback
+    try:
+        return ("ok", rp.solve(in_profile))
+    except Exception as ex:
+        if _in_pyroll(ex):
+            frames = traceback.extract_tb(ex.__traceback__)
+            here = any(f.filename.endswith("roll_pass/hookimpls/helpers.py") or
+                       (f.filename.endswith("roll_pass/hookimpls/profile.py") and f.name.startswith("cross_section"))
+                       for f in frames)
+            return ("raised", type(ex).__name__, str(ex)[:160], "cross_section" if here else "elsewhere")
+        raise
+
+
+# --------------------------------------------------------------------------------------------------------------
+# python-side evaluation of the generated terms over REAL shapely (K, a)
+# --------------------------------------------------------------------------------------------------------------
+def _coords(v):
+    import numpy as np
+    return v if isinstance(v, np.ndarray) else np.array(v.coords)
+
+
+def eval_term(t, srcs, env):
+    """the meaning of a term when the signature is shapely itself, called exactly as the source calls it"""
+    import numpy as np
+    from shapely import Polygon, LineString, clip_by_rect
+    from shapely.affinity import translate, rotate
+    from pyroll.core.profile.profile import refine_cross_section
+    k = t[0]
+    if k == "src":
+        return srcs[t[1]]
+    if k == "translate":
+        return translate(eval_term(t[1], srcs, env), xoff=pyexpr.py_eval(t[2], env), yoff=pyexpr.py_eval(t[3], env))
+    if k == "rotate":
+        return rotate(eval_term(t[1], srcs, env), angle=pyexpr.py_eval(t[2], env), origin=(0, 0))
+    if k == "reverse":
+        return LineString(_coords(eval_term(t[1], srcs, env))[::-1])
+    if k == "concat":
+        return np.concatenate([_coords(eval_term(t[1], srcs, env)), _coords(eval_term(t[2], srcs, env))])
+    if k == "polygon":
+        return Polygon(_coords(eval_term(t[1], srcs, env)))
+    if k == "clip":
+        b = [(-math.inf if x == oc.NINF else math.inf if x == oc.PINF else pyexpr.py_eval(x[1], env)) for x in t[2:]]
+        return clip_by_rect(eval_term(t[1], srcs, env), *b)
+    if k == "refine":
+        return refine_cross_section(eval_term(t[1], srcs, env))
+    raise ValueError(t)
+
+
+def _measure(g, kind):
+    if kind == "width":
+        return g.bounds[2] - g.bounds[0]
+    if kind == "height":
+        return g.bounds[3] - g.bounds[1]
+    if kind == "centroid.x":
+        return g.centroid.x
+    if kind == "centroid.y":
+        return g.centroid.y
+    return g.bounds[kind[1]]
+
+
+def eval_cond(c, srcs, env, menv):
+    k = c[0]
+    if k == "lt":
+        return pyexpr.py_eval(c[1], menv) < pyexpr.py_eval(c[2], menv)
+    if k == "le":
+        return pyexpr.py_eval(c[1], menv) <= pyexpr.py_eval(c[2], menv)
+    if k == "not":
+        return not eval_cond(c[1], srcs, env, menv)
+    if k == "and":
+        return eval_cond(c[1], srcs, env, menv) and eval_cond(c[2], srcs, env, menv)
+    if k == "or":
+        return eval_cond(c[1], srcs, env, menv) or eval_cond(c[2], srcs, env, menv)
+    if k == "invalid":
+        return not eval_term(c[1], srcs, env).is_valid
+    raise ValueError(c)
+
+
+def eval_prog(T, res, lines_term, srcs, env):
+    """-> ('ok', geometry, measurements) | ('raised', exc name, measurements)"""
+    def full(t):
+        return oc.subst(t, lines=lines_term, helpers=T["helpers"])
+    menv = dict(env)
+    for (v, g, kind) in res.meas:
+        menv[v] = _measure(eval_term(full(g), srcs, env), kind)
+    meas = {v: menv[v] for (v, _, _) in res.meas}
+    for (c, exc, msg) in res.checks:
+        if eval_cond(full(c), srcs, env, menv):
+            return ("raised", exc, meas)
+    return ("ok", eval_term(full(res.geom), srcs, env), meas)
+
+
+def _observed_validity(T, res, lines_term, srcs, env):
+    """GEOS's `is_valid` is a parameter of the vertex-list model: its value on the geometry the program tests (1.0 / 0.0)"""
+    for (c, exc, msg) in res.checks:
+        if c[0] == "invalid":
+            try:
+                g = eval_term(oc.subst(c[1], lines=lines_term, helpers=T["helpers"]), srcs, env)
+                return 1.0 if g.is_valid else 0.0
+            except Exception:
+                return 0.0
+    return 1.0
+
+
+def _lines_term(T, which):
+    return oc._concat([t for (_, t) in T["lines"][which][0]])
+
+
+# --------------------------------------------------------------------------------------------------------------
+# the oracle (from the property text, on really solved passes)
+# --------------------------------------------------------------------------------------------------------------
+def _opening(rp):
+    """polygon spanned by the pass's contour lines, a valid version of it for containment tests, and what it can contain
+    in the width direction (two rolls: z extent; three rolls: twice the reach towards the gap at 90 degrees)"""
+    import numpy as np
+    from shapely import Polygon, make_valid
+    ring = np.concatenate([np.array(l.coords) for l in rp.contour_lines.geoms])
+    raw = Polygon(ring)
+    scale = float(np.abs(ring).max())
+    if raw.is_valid:
+        region = raw
+    else:
+        mv = make_valid(raw)
+        region = mv
+    polys = [g for g in getattr(region, "geoms", [region]) if g.geom_type == "Polygon" and g.area > 0]
+    return raw, region, polys, scale
+
+
+def _capacity(which, polys):
+    if not polys:
+        return float("nan")
+    if which == "two":
+        return 2 * min(-min(p.bounds[0] for p in polys), max(p.bounds[2] for p in polys))
+    return 2 * max(p.bounds[3] for p in polys)
+
+
+def _reach(cs, ang):
+    import numpy as np
+    v = np.array(cs.exterior.coords)
+    return float((v[:, 0] * math.cos(math.radians(ang)) + v[:, 1] * math.sin(math.radians(ang))).max())
+
+
+def _from_groove(groove, **kw):
+    import pyroll.core as pc
+    try:
+        return ("ok", pc.Profile.from_groove(groove, **kw).cross_section)
+    except Exception as ex:
+        if not _in_pyroll(ex):
+            raise
+        return ("raised", type(ex).__name__, str(ex)[:120])
+
+
+def _oracle(ctx, which, groove, gap, rp, w, outcome, geo, fg, replay):
+    """`w` = the prescribed width (None: no width model -> the usable width)."""
+    from shapely.affinity import rotate
+    raw, region, polys, scale = geo
+    tol = 1e-9 * scale
+    cap = _capacity(which, polys)
+    closed = "-closed-gap" if gap == 0 else ""
+    uw_pass = float(rp.usable_width)
+    if which == "two" and abs(uw_pass - float(groove.usable_width)) > tol:
+        ctx.violation("two-usable-width", f"usable width of the pass {uw_pass} is not the groove's {groove.usable_width}", replay)
+    wexp = uw_pass if w is None else w
+    if not (wexp > 0 and math.isfinite(wexp)):
+        ctx.count("malformed:" + outcome[0])
+        if outcome[0] == "ok":
+            cs = outcome[1].cross_section
+            if not cs.is_empty:
+                ctx.violation(f"{which}-malformed-width-accepted", f"prescribed width {wexp}: a non-empty cross-section came back", replay)
+        return
+    r = wexp / cap
+    ctx.count("ratio:" + ("<=1" if r <= 1 else "1..1.01" if r <= 1.01 else ">1.01"))
+    if outcome[0] == "raised":
+        ctx.count("raised:" + outcome[1])
+        if outcome[3] != "cross_section":
+            # raised by some other hook of the solution procedure (not by building the cross-section): no C08 matter
+            ctx.count("solve-raised-elsewhere:" + outcome[1])
+            return
+        if r <= 1 - 1e-9:
+            ctx.violation(f"{which}-feasible-width-raises{closed}", f"prescribed width {wexp} <= what the contours contain ({cap}) "
+                          f"but solving raised {outcome[1]}: {outcome[2]}", replay)
+        elif r > 1.01 * (1 + 1e-9) and outcome[1] != "ValueError":
+            ctx.violation(f"{which}-overwidth-wrong-error", f"over-wide profile reported as {outcome[1]}: {outcome[2]}", replay)
+        if fg is not None and fg[0] == "ok" and r > 1 + 1e-9:
+            ctx.violation("two-from-groove-accepts-pass-raises", f"width {wexp}, gap {gap}: the pass raises {outcome[1]}, "
+                          f"from_groove builds a profile", replay)
+        return
+    out = outcome[1]
+    cs = out.cross_section
+    if r > 1.01 * (1 + 1e-9):
+        ctx.violation(f"{which}-overwidth-accepted{closed}", f"prescribed width {wexp} is {r:.6f} x what the contours can contain "
+                      f"({cap}); no error, profile of bounds width {cs.bounds[2] - cs.bounds[0] if not cs.is_empty else None} "
+                      f"(valid={cs.is_valid})", replay)
+        return
+    if cs.geom_type != "Polygon" or cs.is_empty or not cs.is_valid:
+        ctx.violation(f"{which}-out-cs-invalid{closed}", f"the outgoing cross-section is a {cs.geom_type} empty={cs.is_empty} "
+                      f"valid={cs.is_valid}", replay)
+        return
+    # 1. within the opening
+    if not region.buffer(tol).contains(cs):
+        ctx.violation(f"{which}-not-contained{closed}", f"outgoing cross-section reaches outside the opening by area "
+                      f"{cs.difference(region.buffer(tol)).area}", replay)
+    # 2. exactly the prescribed width (within 1 % over the contours: what they contain)
+    weff = min(wexp, cap)
+    if which == "two":
+        got = (cs.bounds[0], cs.bounds[2])
+        if abs(got[0] + weff / 2) > tol or abs(got[1] - weff / 2) > tol:
+            ctx.violation(f"two-width{closed}", f"prescribed width {wexp} (contours contain {cap}): cross-section spans {got}", replay)
+    else:
+        for ang in (90, 210, 330):
+            e = _reach(cs, ang)
+            if abs(e - weff / 2) > tol:
+                ctx.violation("three-width", f"prescribed width {wexp} (contours contain {cap}): cross-section reaches {e} towards "
+                              f"the gap at {ang} degrees", replay)
+                break
+    pw = float(out.width)
+    if abs(pw - weff) > 10 * tol:
+        ctx.violation(f"{which}-profile-width", f"the returned profile reports width {pw}, prescribed {wexp} (contours contain {cap})", replay)
+    if w is None and abs((cs.bounds[2] - cs.bounds[0] if which == "two" else 2 * _reach(cs, 90)) - uw_pass) > tol:
+        ctx.violation(f"{which}-default-width", f"no width prescribed: cross-section width is not the usable width {uw_pass}", replay)
+    # 3. symmetry of the pass
+    sd = cs.symmetric_difference(rotate(cs, TURN[which], origin=(0, 0))).area
+    if sd > 1e-9 * cs.area:
+        ctx.violation(f"{which}-symmetry", f"cross-section differs from its image under the {TURN[which]} degree turn by area {sd} "
+                      f"of {cs.area}", replay)
+    # 4. the same shape as the constructor builds
+    if fg is not None:
+        if fg[0] == "raised":
+            ctx.violation(f"two-from-groove-raises-pass-accepts{closed}", f"width {wexp}, gap {gap}: from_groove raises {fg[1]} "
+                          f"({fg[2]}), the pass returns a profile", replay)
+        else:
+            d = cs.symmetric_difference(fg[1]).area
+            if d > 1e-12 * cs.area or any(abs(a - b) > tol for a, b in zip(cs.bounds, fg[1].bounds)):
+                ctx.violation("two-from-groove-differs", f"width {wexp}, gap {gap}: pass cross-section and from_groove differ by "
+                              f"area {d}", replay)
+
+
+def _oracle_seed(ctx, which, groove, gap, geo, in_profile, replay):
+    """init_solve seeds the out profile with the usable cross-section: it spans the usable width"""
+    rp = _make_pass(which, groove, gap, None)
+    try:
+        rp.init_solve(in_profile)
+    except Exception as ex:
+        if _in_pyroll(ex):
+            ctx.violation(f"{which}-init-solve-raises", f"init_solve raised {type(ex).__name__}: {ex}"[:200], replay)
+            return
+        raise
+    cs = rp.out_profile.__dict__.get("cross_section")
+    raw, region, polys, scale = geo
+    tol = 1e-9 * scale
+    uw = float(rp.usable_width)
+    if cs is None or cs.is_empty:
+        ctx.violation(f"{which}-seed-missing", "init_solve did not seed out_profile.cross_section", replay)
+        return
+    e = (cs.bounds[2] - cs.bounds[0]) if which == "two" else 2 * _reach(cs, 90)
+    if abs(e - uw) > tol:
+        ctx.violation(f"{which}-seed-width", f"seeded cross-section has width {e}, usable width {uw}", replay)
+    if not region.buffer(tol).contains(cs):
+        ctx.violation(f"{which}-seed-not-contained", "seeded cross-section reaches outside the opening", replay)
+
+
+# --------------------------------------------------------------------------------------------------------------
+# one group of cases: one pass opening, several prescribed widths
+# --------------------------------------------------------------------------------------------------------------
+def _width_for(kind, rng, puw, cap, ext_raw):
+    if kind == "default":
+        return None
+    if kind == "under":
+        return puw * rng.uniform(0.3, 0.98)
+    if kind == "usable":
+        return puw
+    if kind == "pad":
+        return puw + (max(cap, ext_raw) - puw) * rng.uniform(0.05, 0.95)
+    if kind == "extent":
+        return cap
+    if kind == "over-lt-1pc":
+        return cap * (1 + rng.uniform(0.0005, 0.009))
+    if kind == "over-just-below":
+        return cap * 1.0099
+    if kind == "over-just-above":
+        return cap * 1.0101
+    if kind == "beyond":
+        return cap * (1.01 + 10 ** rng.uniform(-3, 0))
+    return {"zero": 0.0, "negative": -puw, "nan": float("nan"), "inf": float("inf")}[kind]
+
+
+def _same_polygon(a, b, tol):
+    """same region and same extreme coordinates (vertex lists may differ by collinear vertices and starting point)"""
+    if a.is_empty or b.is_empty:
+        return a.is_empty and b.is_empty
+    if any(abs(x - y) > tol for x, y in zip(a.bounds, b.bounds)):
+        return False
+    return a.symmetric_difference(b).area <= 1e-9 * max(a.area, b.area)
+
+
+def _group(ctx, T, which, desc, groove, gap, kinds, lean):
+    import numpy as np
+    from shapely import Polygon
+    rng = ctx.rng
+    uw, depth = float(groove.usable_width), float(groove.depth)
+    probe = _make_pass(which, groove, gap, None)
+    try:
+        geo = _opening(probe)
+        puw, height = float(probe.usable_width), float(probe.height)
+    except Exception as ex:
+        if _in_pyroll(ex):
+            raise _ImplRaised(f"{type(ex).__name__}: {ex} (reading contour_lines / usable_width / height of a fresh {which}-roll pass)") from ex
+        raise
+    raw, region, polys, scale = geo
+    cap = _capacity(which, polys)
+    if not (height > 1e-9 * scale and cap == cap and cap > 0):
+        ctx.count("skipped:opening-without-interior")          # e.g. a flat groove with closed gap: no pass
+        return
+    ext_raw = (raw.bounds[2] - raw.bounds[0]) if which == "two" else 2 * raw.bounds[3]
+    tol = 1e-9 * scale
+    rc, gc = np.array(probe.roll.contour_line.coords), np.array(groove.contour_line.coords)
+    if rc.shape != gc.shape or not np.array_equal(rc, gc):
+        ctx.count("assumption-failed:roll-contour-is-not-groove-contour")
+        ctx.disagreement("roll.contour_line and groove.contour_line have different coordinates (hypothesis of two_code_paths_agree)",
+                         {"groove": desc})
+    monotone = bool((np.diff(gc[:, 0]) > 0).all())
+    ctx.count(f"{which}:{desc['cls']}")
+    ctx.count("gap:zero" if gap == 0 else "gap:positive")
+    ctx.count("contour:z-monotone" if monotone else "contour:not-z-monotone")
+    srcs = {"rollContour": probe.roll.contour_line, "grooveContour": groove.contour_line}
+    model = getattr(ctx, "model_available", True) and T is not None
+    fn = T["resolved"].get((which, "cross_section")) if T else None
+    prog = next((r for (i, r) in T["hooks"] if i["fn"] == fn), None) if T else None
+    if model and lean is not None:
+        lean.append(("contour " + " ".join(f"{stub.bits(x)} {stub.bits(y)}" for x, y in gc), ("contour", len(gc)), None))
+    seeded = False
+    for kind in kinds:
+        w = _width_for(kind, rng, puw, cap, ext_raw)
+        in_kind = rng.choice(["round", "box", "diamond", "square"])
+        ip = _in_profile(in_kind, height * rng.uniform(1.05, 1.4), uw)
+        replay = {"pass": which, "groove": desc, "gap": gap, "width_kind": kind, "width": w, "in_profile": in_kind,
+                  "in_height": float(ip.height), "capacity": cap, "usable_width": puw}
+        wexp = puw if w is None else w
+        ctx.case([which, desc["cls"], round(math.log10(scale), 3), round(gap / uw, 9), kind,
+                  round(wexp / cap, 6) if cap == cap and wexp == wexp else str(wexp), in_kind], nontrivial=(w is not None or gap > 0))
+        ctx.count("width:" + kind)
+        ctx.count("in:" + in_kind)
+        if not seeded:
+            _oracle_seed(ctx, which, groove, gap, geo, ip, dict(replay, read="init_solve"))
+            seeded = True
+        rp = _make_pass(which, groove, gap, w)
+        outcome = _solve(rp, ip)
+        fg = _from_groove(groove, width=wexp, gap=gap) if which == "two" else None
+        _oracle(ctx, which, groove, gap, rp, w, outcome, geo, fg, replay)
+        if len(ctx.samples) < 4 and kind in ("pad", "beyond"):
+            ctx.sample({k: replay[k] for k in ("pass", "groove", "gap", "width_kind", "width", "capacity")} |
+                       {"outcome": outcome[0] if outcome[0] == "ok" else list(outcome[1:3])})
+        if not model or prog is None or not (wexp > 0 and math.isfinite(wexp)):
+            continue
+        if outcome[0] == "raised" and outcome[3] != "cross_section":
+            continue
+        # ---- K (a): the generated terms over real shapely vs what the pass returned -----------------------------------
+        env = {"width": wexp, "gap": gap, "roll.groove.usable_width": uw, "usable_width": puw, "groove.usable_width": uw,
+               "groove.depth": depth}
+        try:
+            mine = eval_prog(T, prog, _lines_term(T, which), srcs, env)
+        except Exception as ex:           # GEOS refusing the generated construction where the real one went through
+            mine = ("raised", type(ex).__name__, {})
+        real_kind = "ok" if outcome[0] == "ok" else "raised"
+        if mine[0] != real_kind or (real_kind == "raised" and mine[1] != outcome[1]):
+            ctx.disagreement(f"generated {fn} evaluated over shapely gives {mine[:2] if mine[0] == 'raised' else 'a polygon'}, the real "
+                             f"pass {outcome[:3] if outcome[0] == 'raised' else 'a polygon'}", replay)
+        elif real_kind == "ok":
+            a, b = np.array(outcome[1].cross_section.exterior.coords), np.array(mine[1].exterior.coords)
+            if a.shape != b.shape or not np.array_equal(a, b):
+                ctx.disagreement(f"generated {fn} evaluated over shapely differs from the real out cross-section "
+                                 f"(coordinate by coordinate)", replay)
+            else:
+                ctx.validated()
+                ctx.count("term-eval-vertices-compared", len(a))
+        else:
+            ctx.validated()
+        envline = "env " + " ".join(f"{k}={stub.bits(v)}" for k, v in env.items())
+        if lean is not None:
+            # ---- K (b): the Lean Float run under the vertex-list interpretation ------------------------------------------
+            exp_geom = outcome[1].cross_section if outcome[0] == "ok" else None
+            valid = _observed_validity(T, prog, _lines_term(T, which), srcs, env)
+            lean.append((envline + f" @valid={stub.bits(valid)}", ("env",), replay))
+            lean.append((f"run {which}_cross_section", ("run", real_kind, outcome[1] if real_kind == "raised" else None, exp_geom,
+                                                        mine[2] if len(mine) > 2 else {}, tol), replay))
+        if which == "two":
+            # the constructor side: every way of giving the dimensions
+            variants = [("wg", dict(width=wexp, gap=gap), fg)]
+            if rng.random() < 0.3:
+                variants.append(("fh", dict(filling=wexp / uw, height=gap + 2 * depth), None))
+                variants.append(rng.choice([("fg", dict(filling=wexp / uw, gap=gap), None),
+                                            ("wh", dict(width=wexp, height=gap + 2 * depth), None)]))
+            for tag, kw, real in variants:
+                r = T["fg"].get(tag)
+                if r is None:
+                    continue
+                real = real or _from_groove(groove, **kw)
+                fenv = dict(kw)
+                fenv.update({"groove.usable_width": uw, "groove.depth": depth})
+                try:
+                    mine = eval_prog(T, r, None, srcs, fenv)
+                except Exception as ex:
+                    mine = ("raised", type(ex).__name__, {})
+                if mine[0] != real[0] or (real[0] == "raised" and mine[1] != real[1]):
+                    ctx.disagreement(f"generated from_groove_{tag} over shapely gives {mine[:2] if mine[0] == 'raised' else 'a polygon'}, "
+                                     f"the real constructor {real[:3] if real[0] == 'raised' else 'a polygon'}", dict(replay, args=kw))
+                elif real[0] == "ok":
+                    a, b = np.array(real[1].exterior.coords), np.array(mine[1].exterior.coords)
+                    if a.shape != b.shape or not np.array_equal(a, b):
+                        ctx.disagreement(f"generated from_groove_{tag} over shapely differs from the real constructor", dict(replay, args=kw))
+                    else:
+                        ctx.validated()
+                else:
+                    ctx.validated()
+                if lean is not None:
+                    # validity of the clipped polygon is a parameter of the model: observed on the generated construction
+                    valid = _observed_validity(T, r, None, srcs, fenv)
+                    lean.append(("env " + " ".join(f"{k}={stub.bits(v)}" for k, v in fenv.items()) + f" @valid={stub.bits(valid)}",
+                                 ("env",), replay))
+                    lean.append((f"run from_groove_{tag}", ("run", real[0], real[1] if real[0] == "raised" else None,
+                                                            real[1] if real[0] == "ok" else None, mine[2] if len(mine) > 2 else {}, tol),
+                                 dict(replay, args=kw)))
+
+
+def _check_lean(ctx, lean):
+    import numpy as np
+    from shapely import Polygon
+    lines = [l for (l, _, _) in lean]
+    out = ctx.lean_model(MODEL, lines)
+    if len(out) != len(lines):
+        ctx.disagreement(f"model driver answered {len(out)} lines for {len(lines)}", {})
+        return
+    for (line, exp, replay), o in zip(lean, out):
+        if exp[0] == "contour":
+            if o != f"ok {exp[1]}":
+                ctx.disagreement(f"model driver: {o!r} on a contour line", {})
+        elif exp[0] == "env":
+            if o != "ok":
+                ctx.disagreement(f"model driver: {o!r} on an env line", replay)
+        elif exp[0] == "run":
+            _, kind, exc, geom, meas, tol = exp
+            head, _, mpart = o.partition(" # ")
+            toks = head.split()
+            if not toks or toks[0] not in ("ok", "raised"):
+                ctx.disagreement(f"model driver: {o[:80]!r} on `{line}`", replay)
+                continue
+            if toks[0] != kind or (kind == "raised" and toks[1:2] != [exc]):
+                ctx.disagreement(f"vertex-list model on `{line}`: {' '.join(toks[:2]) if toks[0] == 'raised' else 'a polygon'}, "
+                                 f"real: {('raised ' + exc) if kind == 'raised' else 'a polygon'}", replay)
+                continue
+            ok = True
+            try:
+                mm = {k: stub.unbits(v) for k, v in (x.split("=") for x in mpart.split())} if mpart.strip() else {}
+            except Exception:
+                mm = None
+            if mm is None:
+                ctx.disagreement(f"model driver: unparsable measurements {mpart[:80]!r}", replay)
+                continue
+            for k, v in meas.items():
+                if k not in mm or not abs(mm[k] - v) <= 10 * tol:
+                    ctx.disagreement(f"vertex-list model on `{line}`: measurement {k} = {mm.get(k)}, shapely {v}", replay)
+                    ok = False
+            if kind == "ok" and ok:
+                try:
+                    pts = np.array([stub.unbits(t) for t in toks[1:]]).reshape(-1, 2)
+                    mp = Polygon(pts) if len(pts) >= 4 else Polygon()
+                except Exception:
+                    ctx.disagreement(f"model driver: unparsable polygon on `{line}`", replay)
+                    continue
+                if not mp.is_valid or not geom.is_valid:
+                    ctx.count("vertex-list-model:outside-fragment(invalid ring)")
+                    continue
+                if not _same_polygon(mp, geom, tol):
+                    ctx.disagreement(f"vertex-list model on `{line}`: polygon differs from the real one (area of the symmetric "
+                                     f"difference {mp.symmetric_difference(geom).area} of {geom.area})", replay)
+                    ok = False
+                else:
+                    ctx.count("vertex-list-model-vertices", len(pts))
+            if ok:
+                ctx.validated()
+
+
+def _check_resolution(ctx, T):
+    """the generated instantiation (which implementation answers on which pass class) against the real hooks"""
+    import pyroll.core as pc
+    for which, cls in (("two", pc.TwoRollPass), ("three", pc.ThreeRollPass)):
+        real_mro = [k.__name__ for k in cls.__mro__]
+        if [k for k in real_mro if k in PASS_MRO[which]] != PASS_MRO[which]:
+            ctx.disagreement(f"MRO of {cls.__name__} is {real_mro}, the translator assumes {PASS_MRO[which]}", {})
+        for hook, owner in (("cross_section", cls.OutProfile), ("usable_cross_section", cls), ("tip_cross_section", cls)):
+            real = [f.name for f in getattr(owner, hook).functions]
+            if not real or real[0] != T["resolved"].get((which, hook)):
+                ctx.disagreement(f"{cls.__name__}: {hook} is answered first by {real[:1]}, the generated module instantiates "
+                                 f"{T['resolved'].get((which, hook))}", {"hook": hook})
+            else:
+                ctx.validated()
+        real = [f.name for f in cls.OutProfile.width.functions]
+        # the default of the out profile's width must come before the measuring implementations of Profile.width
+        if "width" not in real or real.index("width") != 0:
+            ctx.disagreement(f"{cls.__name__}.OutProfile.width resolves {real}: the default (usable width) is not tried first", {})
+        else:
+            ctx.validated()
+
+
+def _sampler(rng, var):
+    return math.exp(rng.uniform(-6, 1))
+
+
+def run(ctx):
+    import warnings
+    warnings.filterwarnings("ignore")
+    from . import common  # noqa: F401  (silences the pyroll logger)
+    rng = ctx.rng
+    T = getattr(ctx, "c08", None)
+    model = getattr(ctx, "model_available", True)
+    if T is None:                       # extended search re-enters run() without translate()
+        try:
+            T = scan()
+            T["resolved"] = {(w, h): _first_impl(T["hooks"], h, w, s) for w in ("two", "three")
+                             for (h, s) in (("cross_section", ".OutProfile"), ("usable_cross_section", ""), ("tip_cross_section", ""))}
+        except Exception:
+            T = None
+    complete = T is not None and len(T["lines"]) == 2 and len(T["helpers"]) == 2 and all(r is not None for (_, r) in T["hooks"])
+    if not complete:
+        T = None
+    if model and T is not None:
+        _check_resolution(ctx, T)
+        found = getattr(ctx, "found", None)
+        if found:
+            stub.formula_correspondence(ctx, MODEL, {n: i for n, i in found.items()}, _sampler, n_each=ctx.budget(5, 60))
+    lean = [] if (model and T is not None) else None
+    n_groups = ctx.budget(110, 2500)
+    try:
+        for (which, cls, kw, gf, kind) in CORPUS:
+            kw = dict(kw, pad_angle=PAD[which])
+            desc = {"cls": cls, "kwargs": kw}
+            g = _build_groove(desc)
+            _group(ctx, T, which, desc, g, gf * float(g.usable_width), [kind, "default"], lean)
+        done = 0
+        while done < n_groups:
+            which = "two" if rng.random() < 0.55 else "three"
+            r = _random_groove(rng, which, ctx)
+            if r is None:
+                continue
+            desc, g = r
+            uw = float(g.usable_width)
+            if which == "two" and rng.random() < 0.12:
+                gap = 0.0
+            else:
+                gap = uw * 10 ** rng.uniform(-3, math.log10(0.5))
+            kinds = list(WIDTH_KINDS) if (done < 6 or ctx.tier == "thorough") else \
+                ["default"] + rng.sample(WIDTH_KINDS[1:], 5)
+            if rng.random() < 0.1:
+                kinds.append(rng.choice(["zero", "negative", "nan", "inf"]))
+            _group(ctx, T, which, desc, g, gap, kinds, lean)
+            done += 1
+    except _ImplRaised as ex:
+        ctx.violation("pass-geometry-raises", str(ex)[:300], {"note": "raised while reading the opening of a fresh pass"})
+    if lean:
+        _check_lean(ctx, lean)
+
+
+def replay(ctx, data):
+    r = data.get("replay", data)
+    if "groove" not in r:
+        return
+    import warnings
+    warnings.filterwarnings("ignore")
+    from . import common  # noqa: F401
+    g = _build_groove(r["groove"])
+    which, gap, w = r["pass"], r["gap"], r.get("width")
+    probe = _make_pass(which, g, gap, None)
+    geo = _opening(probe)
+    ip = _in_profile(r.get("in_profile", "round"), r.get("in_height", float(probe.height) * 1.2), float(g.usable_width))
+    if r.get("read") == "init_solve":
+        _oracle_seed(ctx, which, g, gap, geo, ip, r)
+        return
+    rp = _make_pass(which, g, gap, w)
+    outcome = _solve(rp, ip)
+    wexp = float(probe.usable_width) if w is None else w
+    fg = _from_groove(g, width=wexp, gap=gap) if which == "two" else None
+    _oracle(ctx, which, g, gap, rp, w, outcome, geo, fg, r)
